@@ -5,6 +5,7 @@
 
 #include <addresstype.h>
 #include <addrman.h>
+#include <arith_uint256.h>
 #include <banman.h>
 #include <chain.h>
 #include <chainparams.h>
@@ -219,6 +220,7 @@ std::string NodeOpts::Describe() const
     j.i("worker_threads", worker_threads).i("prevoutfetch_threads", prevoutfetch_threads).u("coins_cache_bytes", coins_cache_bytes)
         .b("coins_db_in_memory", coins_db_in_memory).b("block_tree_db_in_memory", block_tree_db_in_memory).u("db_batch_bytes", db_batch_bytes)
         .i("sig_cache_bytes", sig_cache_bytes).i("script_cache_bytes", script_cache_bytes).u("prune_target", prune_target).b("fast_prune", fast_prune)
+        .str("assumed_valid_block", assumed_valid_block ? assumed_valid_block->ToString() : "").str("minimum_chain_work", minimum_chain_work ? minimum_chain_work->ToString() : "")
         .b("with_mempool", with_mempool).i("h_bip34", h_bip34).i("h_dersig", h_dersig).i("h_cltv", h_cltv).i("h_csv", h_csv).i("h_segwit", h_segwit);
     return j.done();
 }
@@ -410,6 +412,8 @@ void SimNode::MakeChainman()
         .prevoutfetch_threads_num = m_opts.prevoutfetch_threads,
     };
     if (m_opts.db_batch_bytes) chainman_opts.coins_view.batch_write_bytes = m_opts.db_batch_bytes;
+    if (m_opts.assumed_valid_block) chainman_opts.assumed_valid_block = *m_opts.assumed_valid_block;
+    if (m_opts.minimum_chain_work) chainman_opts.minimum_chain_work = UintToArith256(*m_opts.minimum_chain_work);
     if (m_opts.sig_cache_bytes >= 0) chainman_opts.signature_cache_bytes = (size_t)m_opts.sig_cache_bytes;
     if (m_opts.script_cache_bytes >= 0) chainman_opts.script_execution_cache_bytes = (size_t)m_opts.script_cache_bytes;
     const node::BlockManager::Options blockman_opts{
@@ -1710,20 +1714,31 @@ std::shared_ptr<CBlock> BlockBuilder::Build(const RefBlock* parent, const std::v
     if (fees < 0) fees = 0;
     const CAmount value = spec.cb.value ? *spec.cb.value : m_led.Subsidy(height) + fees;
     const CScript spk = spec.cb.spk.empty() ? (CScript() << OP_TRUE) : spec.cb.spk;
-    const size_t parts = std::max<size_t>(1, spec.cb.split);
-    for (size_t i = 0; i < parts; ++i) {
-        CAmount v = value / (CAmount)parts;
-        if (i == 0) v += value - v * (CAmount)parts;
-        cb.vout.emplace_back(v, spk);
+    if (spec.cb.raw_outputs) {
+        cb.vout = *spec.cb.raw_outputs;
+    } else {
+        const size_t parts = std::max<size_t>(1, spec.cb.split);
+        for (size_t i = 0; i < parts; ++i) {
+            CAmount v = value / (CAmount)parts;
+            if (i == 0) v += value - v * (CAmount)parts;
+            cb.vout.emplace_back(v, spk);
+        }
+        for (const auto& o : spec.cb.extra_outputs) cb.vout.push_back(o);
     }
-    for (const auto& o : spec.cb.extra_outputs) cb.vout.push_back(o);
     blk->vtx.push_back(MakeTransactionRef(cb));
     bool any_witness = false;
     for (const auto& tx : txs) {
         blk->vtx.push_back(tx);
         any_witness = any_witness || tx->HasWitness();
     }
-    if (spec.commit_witness && (any_witness || spec.force_commitment)) SetCommitment(*blk, /*add_if_missing=*/true);
+    if (spec.commit_witness && (any_witness || spec.force_commitment)) {
+        SetCommitment(*blk, /*add_if_missing=*/true);
+        if (spec.cb.no_witness_nonce) {
+            CMutableTransaction c2(*blk->vtx[0]);
+            c2.vin[0].scriptWitness.stack.clear();
+            blk->vtx[0] = MakeTransactionRef(c2);
+        }
+    }
     blk->hashMerkleRoot = BlockMerkleRoot(*blk);
     if (spec.bad_merkle) {
         unsigned char* p = blk->hashMerkleRoot.begin();
